@@ -93,6 +93,9 @@ class Post(models.Model):
                                related_name="posts")
     home = models.ForeignKey(Country, on_delete=models.CASCADE, related_name="+")   # NOT NULL
     tags = models.ManyToManyField(Tag, related_name="posts", db_table="post_tags")
+    # attribute name on Tag and name in queries from Tag differ (both are declared)
+    labels = models.ManyToManyField(Tag, related_name="labelled_posts", related_query_name="labelled",
+                                    db_table="post_labels")
 
     class Meta:
         app_label = "vp_djapp"
